@@ -8,6 +8,8 @@ import (
 	"encoding/json"
 	"fmt"
 	"math"
+	"strconv"
+	"strings"
 	"time"
 
 	"seehuhn.de/go/pdf"
@@ -592,6 +594,56 @@ func Run(tier string) int {
 		}
 	}
 	r.Dim("nesting_depths", []int{1, 2, 17, 100, 200, 250, 254, 255})
+
+	// (f) reals and integers by digit structure: every number of significant
+	// digits 1..19 at every position of the decimal point, for digit strings
+	// that sit on the rounding boundaries of float64 parsing
+	{
+		digitStrings := []string{"9999999999999999999", "1000000000000000001", "1234567890123456789", "9007199254740993000", "9223372036854775807", "4503599627370497000", "1797693134862315708"}
+		seen := map[uint64]bool{}
+		var vals []pdf.Object
+		for _, ds := range digitStrings {
+			for n := 1; n <= 19; n++ {
+				for point := 0; point <= n; point++ {
+					for zeros := 0; zeros <= 3; zeros++ {
+						txt := ds[:point] + "." + strings.Repeat("0", zeros) + ds[point:n]
+						f, err := strconv.ParseFloat(txt, 64)
+						if err != nil || math.IsInf(f, 0) {
+							continue
+						}
+						for _, v := range []float64{f, -f, math.Nextafter(f, 0), math.Nextafter(f, math.Inf(1))} {
+							if b := math.Float64bits(v); !seen[b] {
+								seen[b] = true
+								vals = append(vals, pdf.Real(v))
+							}
+						}
+						if point == n && zeros == 0 {
+							if i, err := strconv.ParseInt(ds[:n], 10, 64); err == nil {
+								vals = append(vals, pdf.Integer(i), pdf.Integer(-i))
+							}
+						}
+					}
+				}
+			}
+		}
+		for e := -4; e <= 20; e++ {
+			f := float64(1<<53) * math.Pow(10, float64(-e))
+			for _, v := range []float64{f, math.Nextafter(f, 0), math.Nextafter(f, math.Inf(1))} {
+				if b := math.Float64bits(v); !seen[b] {
+					seen[b] = true
+					vals = append(vals, pdf.Real(v))
+				}
+			}
+		}
+		r.Dim("digit_structure_numbers", len(vals))
+		r.Par(len(vals), func(i int) {
+			for _, opt := range []pdf.OutputOptions{0, pdf.OptPretty, pdf.OptContentStream, pdf.OptContentStream | pdf.OptPretty} {
+				rn.one("digits", opt, vals[i])
+				rn.one("digits", opt, vals[i], pdf.Integer(7))
+			}
+			r.DistinctS("dg" + hx.Show(vals[i]))
+		})
+	}
 
 	// (e) wide containers: many siblings of one kind in one array / dictionary
 	widths := []int{2, 16, 17, 255, 256, 257, 1000}
